@@ -224,6 +224,56 @@ def miniaod_usable(model: core.Model) -> Tuple[bool, str]:
 
 
 # ------------------------------------------------------------------------------------------------
+CONTAINER_TYPES = [None, "std::vector<{e}>", "FvNS::{n}Vector", "xAOD::JetConstituentVector", "ROOT::VecOps::RVec<{e}>", "DataVector<{e}>", "FvNS::{n}Vector*", "std::array<{e}, 4>"]
+
+
+def declared_container_indexing(oc: core.Outcome, rng: random.Random) -> Dict[str, int]:
+    """Indexing a collection that a METHOD returns, whatever container type the metadata declares for it, is the
+    bounds-checked at() (at_faults_iff_out_of_range is about that access and no other): text of the emitted code."""
+    from .. import impl
+
+    hist: Dict[str, int] = Counter()
+    for backend in BACKENDS:
+        uni = qgen.Universe(backend)
+        cname, (_, etype) = list(uni.colls.items())[0]
+        for ct in CONTAINER_TYPES:
+            for elem, leaf in (("double", ""), ("FvNS::Part", ".pt()")):
+                k = rng.choice([0, 1, 2, 5])
+                k2 = rng.choice([0, 1, 3])
+                decl = {"metadata_type": "add_method_type_info", "type_string": etype, "method_name": "parts", "return_type_element": elem}
+                if ct is not None:
+                    decl["return_type_collection"] = ct.format(e=elem, n="Part" if leaf else "Dbl")
+                md = uni.metadata() + [decl, {"metadata_type": "add_method_type_info", "type_string": "FvNS::Part", "method_name": "pt", "return_type": "double"}]
+                shapes = [(1, f'ds.SelectMany(lambda e: e.{cname}("b")).Select(lambda j: j.parts()[{k}]{leaf})'),
+                          (2, f'ds.SelectMany(lambda e: e.{cname}("b")).Select(lambda j: j.parts()[{k}]{leaf} * 2 + j.parts()[{k2}]{leaf})'),
+                          (1, f'ds.Select(lambda e: e.{cname}("b").Where(lambda j: j.parts()[{k}]{leaf} > 1).Count())'),
+                          (1, f'ds.Select(lambda e: e.{cname}("b").Select(lambda j: j.parts()[{k}]{leaf}))'),
+                          (1, f'ds.Select(lambda e: e.{cname}("b")[{k2}].parts()[{k}]{leaf})')]
+                for n_sub, src in shapes:
+                    try:
+                        r = impl.translate(backend, impl.query_ast(src, md))
+                    except Exception as e:  # noqa: BLE001
+                        r = ("error", type(e).__name__, str(e))
+                    impl.reset_globals()
+                    oc.evaluations += 1
+                    if r[0] != "ok":
+                        hist["refused"] += 1
+                        continue
+                    code = "\n".join(str(x) for x in r[1]["slots"]["query_code"])
+                    n_at = len(re.findall(r"parts\(\)\s*(?:\.|->)\s*at\s*\(", code))
+                    hist["at()" if n_at >= n_sub else "NOT at()"] += 1
+                    if n_at < n_sub:
+                        short = {"collections": {f"{cname}:b": [{"parts": ["<fewer than %d elements>" % (max(k, k2) + 1)]}]}}
+                        oc.violations.append(core.Violation(
+                            "c04:index-not-bounds-checked",
+                            f"{backend}: container declared as {decl.get('return_type_collection', '(default std::vector)')}: {n_sub} subscript(s) on parts() in the query but {n_at} "
+                            f"at() call(s) in the emitted code  [{src}]",
+                            {"backend": backend, "query": src, "metadata": [decl], "event": short, "query_outcome": ["fault", "index"],
+                             "job_outcome": "the emitted access is not the bounds-checked at(): nothing fails loudly past the end (undefined behaviour in C++)",
+                             "emitted_code": code.splitlines(), "broken": "at_faults_iff_out_of_range is about sub_lower = .at(i)"}))
+    return dict(hist)
+
+
 def check(tier: str, seed: int, t0: float, build: core.BuildStatus) -> int:
     logging.disable(logging.CRITICAL)
     ps = core.proof_status(PROP_FILE, build)
@@ -339,6 +389,7 @@ def check(tier: str, seed: int, t0: float, build: core.BuildStatus) -> int:
             done += 1
             handle(backend, uni, src, q.uses, set(q.feat) | {"generated"}, "generated")
     model.close()
+    declared_index = declared_container_indexing(oc, rng)
 
     known_keys = {k["key"] for k in core.known_findings() if k.get("property") == PID and k.get("status") == "known"}
     concrete = [v for v in oc.violations if not v.no_failing_input and v.key not in known_keys]
@@ -367,6 +418,7 @@ def check(tier: str, seed: int, t0: float, build: core.BuildStatus) -> int:
         "cases_unsupported_by_reference_or_exec": unsupported,
         "cms_miniaod_differential": "run" if mini_ok else f"skipped - {mini_note}; recognisers still run (set FV_REPO to a tree with the C06 repairs)",
         "rejected_instances": rejected[:10],
+        "indexing_of_method_collections_by_declared_container_type": declared_index,
     })
     return core.finish(PID, tier, seed, t0, ps, build, oc, TRUSTED, ASSUME)
 
@@ -378,9 +430,29 @@ def replay(path: str, build: core.BuildStatus) -> int:
         print(f"replay names only what broke: {rp.get('broken') or rp.get('what')}")
         ps = core.proof_status(PROP_FILE, build)
         return 1 if ps.broken else 0
-    model = core.Model()
     backend, src = rp["backend"], rp["query"]
     uni = qgen.Universe(backend)
+    if "metadata" in rp:
+        # indexing of a method-returned collection with a declared container type: decided on the emitted text
+        from .. import impl
+
+        md = uni.metadata() + list(rp["metadata"]) + [{"metadata_type": "add_method_type_info", "type_string": "FvNS::Part", "method_name": "pt", "return_type": "double"}]
+        r = impl.translate(backend, impl.query_ast(src, md))
+        if r[0] != "ok":
+            print("implementation refuses:", r[1:3])
+            return 0
+        code = [str(x) for x in r[1]["slots"]["query_code"]]
+        n_at = len(re.findall(r"parts\(\)\s*(?:\.|->)\s*at\s*\(", "\n".join(code)))
+        n_sub = src.count("parts()[")
+        print(f"backend={backend}\nquery={src}\n{n_sub} subscript(s) on parts(), {n_at} at() call(s)")
+        for ln in code:
+            if "parts()" in ln:
+                print("   ", ln.strip())
+        if n_at < n_sub:
+            print(f"VIOLATION property={PID} replay={path}")
+            return 1
+        return 0
+    model = core.Model()
     evs = [rp["event"]] if "event" in rp else []
     r = run_case(model, backend, uni, src, evs, bool(evs), bool(rp.get("values_compared", True)))
     model.close()
